@@ -19,8 +19,16 @@
   tokens (a fresh object built from the snapshot taken at that version) and compares with the real answer.
   The traffic-light cycle is modelled with its real data (integers), re-using CRModel.TrafficLight.
 
-  The action every mutator takes on every cache is looked up in ONE table (`table`): the executable
-  models below call `act item mutator`, so the table is what the driver runs and what the theorems are about.
+  The action every mutator takes on every cache is ONE total function (`act : Item → Mut → Action`, no default row), each
+  mutator has ONE write-set (`writesOf`), each cache one read-set (`reads`).  The executable models below call `act` for
+  every pair a mutator can reach (the one exception: `update_initial_state` sets `prediction := None`, so whatever the action on
+  the departing prediction's occupancy cache is called makes no difference), so the table is what the driver runs, what the
+  correspondence in harness/c11.py tests pair by pair, and what the theorems are about.
+
+  Three pairs break the side condition "kept ⇒ nothing read is written" ON THE REAL CODE (known findings; `unsoundPairs`,
+  theorem C11_unsound_pairs, witnesses C11_witness_*): a Trajectory / Lanelet has no reference to the prediction / network
+  that holds it, so `prediction.trajectory.translate_rotate(…)`, `prediction.trajectory.append_state(…)` and
+  `network.find_lanelet_by_id(i).translate_rotate(…)` leave `occupancy_set` / the spatial index stale.
 -/
 import CRModel.Basic
 import CRModel.TrafficLight
@@ -32,15 +40,22 @@ namespace CR.Cache
 inductive Action where
   | drop        -- forget the cached value (recomputed lazily by the next query)
   | recompute   -- recompute eagerly from the new primary data
+  | update      -- patch the cached value incrementally (what was cached before stays, whether fresh or not)
   | keep        -- leave the slot alone
   deriving DecidableEq, Repr, Inhabited
 
-/-- `fresh` is the value derived from the NEW primary data, `old` the slot before the mutator. -/
-def Action.apply {D : Type} (a : Action) (fresh : D) (old : Option D) : Option D :=
+/-- `fresh` is the value derived from the NEW primary data, `patch` the incremental update of the mutator,
+    `old` the slot before the mutator. -/
+def Action.apply {D : Type} (a : Action) (fresh : D) (patch : D → D) (old : Option D) : Option D :=
   match a with
   | .drop => none
   | .recompute => some fresh
+  | .update => old.map patch
   | .keep => old
+
+/-- For caches the code never patches incrementally: an `update` entry would have to produce the fresh value. -/
+def Action.applySimple {D : Type} (a : Action) (fresh : D) (old : Option D) : Option D :=
+  a.apply fresh (fun _ => fresh) old
 
 /-! ## One cached cell, generically -/
 
@@ -54,6 +69,7 @@ structure Spec (P D M : Type) where
   derive : P → D
   eff : M → P → P
   act : M → Action
+  upd : M → D → D := fun _ d => d     -- the incremental patch of a mutator whose action is `update`
 
 inductive Ev (M : Type) where
   | query
@@ -67,7 +83,7 @@ def answer (c : Cell P D) : D := c.cache.getD (S.derive c.primary)
 
 def step (c : Cell P D) : Ev M → Cell P D
   | .query => ⟨c.primary, some (S.answer c)⟩
-  | .mutate m => ⟨S.eff m c.primary, (S.act m).apply (S.derive (S.eff m c.primary)) c.cache⟩
+  | .mutate m => ⟨S.eff m c.primary, (S.act m).apply (S.derive (S.eff m c.primary)) (S.upd m) c.cache⟩
 
 def run (c : Cell P D) : List (Ev M) → Cell P D
   | [] => c
@@ -105,21 +121,32 @@ inductive Field where
   | cycElements | cycOffset | cycActive
   deriving DecidableEq, Repr, Inhabited
 
-/-- Public mutators. -/
+/-- Public mutators (each is ONE method of the code, whoever holds the object it is called on). -/
 inductive Mut where
+  -- TrajectoryPrediction (prediction.py): setters :307-371, translate_rotate :373-389 (also SetBasedPrediction :199-213)
   | predSetShape | predSetTrajectory | predSetWheelbase | predSetAssignment | predTranslateRotate
+  -- Trajectory (trajectory.py) called on the trajectory a prediction holds: translate_rotate :156-176, append_state :97-123
+  | trajTranslateRotate | trajAppendState
+  -- Obstacle / StaticObstacle / DynamicObstacle (obstacle.py): :243-257, :224-236, :403-419 / :646-665 (and Scenario.translate_rotate),
+  -- prediction= :564-570 / update_prediction :716-727, update_initial_state :667-714
   | obsSetInitialState | obsSetShape | obsTranslateRotate | obsSetPrediction | obsUpdateInitialState
+  -- Lanelet (lanelet.py): translate_rotate :603-640, convert_to_2d :642-660 — on a free lanelet or on one a network holds
   | lanTranslateRotate | lanConvert2d
+  -- LaneletNetwork (lanelet.py) and the Scenario methods that delegate to it: :1790-1812, :1924-1938, :1604-1617, :1940-1969,
+  -- :1971-1982, __deepcopy__ :1308-1322, __getstate__/__setstate__ :1299-1306
   | netAddLanelet | netAddFromNetwork | netRemoveLanelet | netTranslateRotate | netConvert2d | netDeepcopy | netPickle
+  -- TrafficLightCycle (traffic_light.py) setters :145-166
   | cycSetElements | cycSetOffset | cycSetActive
   deriving DecidableEq, Repr, Inhabited
 
-structure Row where
-  item : Item
-  mutator : Mut
-  writes : List Field
-  action : Action
-  deriving Repr
+def allItems : List Item :=
+  [.occupancySet, .initialOccupancy, .laneletPolygon, .laneletDistance, .laneletInnerDistance, .networkIndex, .cycleInit]
+
+def allMuts : List Mut :=
+  [.predSetShape, .predSetTrajectory, .predSetWheelbase, .predSetAssignment, .predTranslateRotate, .trajTranslateRotate,
+   .trajAppendState, .obsSetInitialState, .obsSetShape, .obsTranslateRotate, .obsSetPrediction, .obsUpdateInitialState,
+   .lanTranslateRotate, .lanConvert2d, .netAddLanelet, .netAddFromNetwork, .netRemoveLanelet, .netTranslateRotate,
+   .netConvert2d, .netDeepcopy, .netPickle, .cycSetElements, .cycSetOffset, .cycSetActive]
 
 /-- What each derived value reads. -/
 def reads : Item → List Field
@@ -131,84 +158,118 @@ def reads : Item → List Field
   | .networkIndex => [.netLaneletSet, .lanFootprint]
   | .cycleInit => [.cycElements, .cycOffset]
 
-/-- THE TABLE: one row per (cache, public mutator that can reach it), with the fields the mutator
-    overwrites and the action the code takes on that cache.  Mirrors the code entry by entry. -/
-def table : List Row := [
-  -- TrajectoryPrediction.occupancy_set (prediction.py)
-  ⟨.occupancySet, .predSetShape,        [.predShape],         .drop⟩,   -- :305-314 `_invalidate_occupancy_set()`
-  ⟨.occupancySet, .predSetTrajectory,   [.predTrajectory],    .drop⟩,   -- :321-329
-  ⟨.occupancySet, .predSetWheelbase,    [.predWheelbaseDead], .drop⟩,   -- :367-370 (writes `_wheelbase_lenghts`, which nothing reads)
-  ⟨.occupancySet, .predSetAssignment,   [.predAssignment],    .keep⟩,   -- :335-361
-  ⟨.occupancySet, .predTranslateRotate, [.predTrajectory],    .drop⟩,   -- :372-388 `_invalidate_occupancy_set()`  (was `keep` before fix 0f589c7)
-  -- the same cache reached through the owning obstacle / scenario (obstacle.py:644-663, scenario.py:1297-1314)
-  ⟨.occupancySet, .obsTranslateRotate,  [.predTrajectory],    .drop⟩,   -- delegates to prediction.translate_rotate
-  ⟨.occupancySet, .obsSetPrediction,    [.predShape, .predTrajectory], .drop⟩,  -- a new prediction object (its own cache)
-  ⟨.occupancySet, .obsUpdateInitialState, [.predShape, .predTrajectory], .drop⟩, -- prediction := None
-  -- Obstacle._initial_occupancy_shape (obstacle.py)
-  ⟨.initialOccupancy, .obsSetInitialState,    [.obsInitialState], .recompute⟩,  -- :240-255
-  ⟨.initialOccupancy, .obsSetShape,           [],                 .keep⟩,       -- :221-233 shape is immutable (warning only)
-  ⟨.initialOccupancy, .obsTranslateRotate,    [.obsInitialState], .recompute⟩,  -- :417, :663 through the setter
-  ⟨.initialOccupancy, .obsSetPrediction,      [.obsPrediction],   .keep⟩,       -- :561-568, :714-725
-  ⟨.initialOccupancy, .obsUpdateInitialState, [.obsInitialState, .obsPrediction, .obsHistory], .recompute⟩, -- :698 through the setter
-  -- Lanelet (lanelet.py:603-659)
-  ⟨.laneletPolygon,       .lanTranslateRotate, [.lanVertices, .lanFootprint], .recompute⟩,  -- :640
-  ⟨.laneletPolygon,       .lanConvert2d,       [.lanVertices, .lanIntrinsic], .recompute⟩,  -- :656
-  ⟨.laneletDistance,      .lanTranslateRotate, [.lanVertices, .lanFootprint], .keep⟩,       -- lengths are motion-invariant
-  ⟨.laneletDistance,      .lanConvert2d,       [.lanVertices, .lanIntrinsic], .drop⟩,       -- :658-659 (was `keep` before fix 960c2de)
-  ⟨.laneletInnerDistance, .lanTranslateRotate, [.lanVertices, .lanFootprint], .keep⟩,
-  ⟨.laneletInnerDistance, .lanConvert2d,       [.lanVertices, .lanIntrinsic], .drop⟩,       -- :658-660 (was `keep` before fix 960c2de)
-  -- the lanelet caches reached through the network / scenario (lanelet.py:1936-1978, scenario.py:1297-1327)
-  ⟨.laneletPolygon,       .netTranslateRotate, [.lanVertices, .lanFootprint], .recompute⟩,
-  ⟨.laneletPolygon,       .netConvert2d,       [.lanVertices, .lanIntrinsic], .recompute⟩,
-  ⟨.laneletDistance,      .netTranslateRotate, [.lanVertices, .lanFootprint], .keep⟩,
-  ⟨.laneletDistance,      .netConvert2d,       [.lanVertices, .lanIntrinsic], .drop⟩,       -- through Lanelet.convert_to_2d
-  ⟨.laneletInnerDistance, .netTranslateRotate, [.lanVertices, .lanFootprint], .keep⟩,
-  ⟨.laneletInnerDistance, .netConvert2d,       [.lanVertices, .lanIntrinsic], .drop⟩,       -- through Lanelet.convert_to_2d
-  -- LaneletNetwork spatial index (lanelet.py)
-  ⟨.networkIndex, .netAddLanelet,      [.netLaneletSet], .recompute⟩,  -- :1786-1808 entry of the new lanelet + tree
-  ⟨.networkIndex, .netAddFromNetwork,  [.netLaneletSet], .recompute⟩,  -- :1920-1934 add_lanelets_from_network: adds with rtree=False, then one rebuild
-  ⟨.networkIndex, .netRemoveLanelet,   [.netLaneletSet], .recompute⟩,  -- :1600-1613
-  ⟨.networkIndex, .netTranslateRotate, [.lanVertices, .lanFootprint], .recompute⟩,  -- :1936-1965 (was `keep` before fix 558dda9)
-  ⟨.networkIndex, .netConvert2d,       [.lanVertices, .lanIntrinsic], .keep⟩,  -- :1967-1978 (x, y unchanged; shapely predicates ignore z)
-  ⟨.networkIndex, .netDeepcopy,        [],               .keep⟩,       -- :1304-1318 tree rebuilt from the copied `_buffered_polygons`
-  ⟨.networkIndex, .netPickle,          [],               .keep⟩,       -- :1295-1302 the same
-  -- TrafficLightCycle._cycle_init_timesteps (traffic_light.py:138-178)
-  ⟨.cycleInit, .cycSetElements, [.cycElements], .drop⟩,  -- :143-146 (was `keep` before fix 2b90567)
-  ⟨.cycleInit, .cycSetOffset,   [.cycOffset],   .drop⟩,  -- :153-156 (was `keep` before fix 2b90567)
-  ⟨.cycleInit, .cycSetActive,   [.cycActive],   .keep⟩   -- :163-165 (`active` is not read by the cumulative time steps)
-]
+/-- ONE write-set per mutator: every primary-data field the method overwrites. -/
+def writesOf : Mut → List Field
+  | .predSetShape => [.predShape]
+  | .predSetTrajectory => [.predTrajectory]
+  | .predSetWheelbase => [.predWheelbaseDead]     -- the setter assigns `_wheelbase_lenghts`, which nothing reads (prediction.py:369-371)
+  | .predSetAssignment => [.predAssignment]
+  | .predTranslateRotate => [.predTrajectory]
+  | .trajTranslateRotate => [.predTrajectory]
+  | .trajAppendState => [.predTrajectory]
+  | .obsSetInitialState => [.obsInitialState]
+  | .obsSetShape => []                            -- the shape is immutable after construction (warning only, obstacle.py:224-236)
+  | .obsTranslateRotate => [.obsInitialState, .predTrajectory]
+  | .obsSetPrediction => [.obsPrediction, .predShape, .predTrajectory, .predAssignment]
+  | .obsUpdateInitialState => [.obsInitialState, .obsPrediction, .obsHistory, .predShape, .predTrajectory, .predAssignment]
+  | .lanTranslateRotate => [.lanVertices, .lanFootprint]
+  | .lanConvert2d => [.lanVertices, .lanIntrinsic]          -- x and y stay: the footprint is not written
+  | .netAddLanelet => [.netLaneletSet]
+  | .netAddFromNetwork => [.netLaneletSet]
+  | .netRemoveLanelet => [.netLaneletSet]
+  | .netTranslateRotate => [.lanVertices, .lanFootprint]
+  | .netConvert2d => [.lanVertices, .lanIntrinsic]
+  | .netDeepcopy => []
+  | .netPickle => []
+  | .cycSetElements => [.cycElements]
+  | .cycSetOffset => [.cycOffset]
+  | .cycSetActive => [.cycActive]
 
-/-- Lookup; a (cache, mutator) pair without a row does not touch the cache at all. -/
-def row? (i : Item) (m : Mut) : Option Row := table.find? (fun r => r.item == i && r.mutator == m)
+/-- THE TABLE: the action the code takes on every cache for every mutator — a total function, no default.
+    Everything not listed for a cache is `keep` *explicitly* (last line of each block), and is then subject to the
+    side condition below like every other `keep`. -/
+def act : Item → Mut → Action
+  -- TrajectoryPrediction.occupancy_set: `_invalidate_occupancy_set()` in the setters and in translate_rotate
+  | .occupancySet, .predSetShape => .drop
+  | .occupancySet, .predSetTrajectory => .drop
+  | .occupancySet, .predSetWheelbase => .drop
+  | .occupancySet, .predTranslateRotate => .drop        -- (was `keep` before fix 30825cd)
+  | .occupancySet, .obsTranslateRotate => .drop         -- obstacle / scenario delegate to prediction.translate_rotate
+  | .occupancySet, .obsSetPrediction => .drop           -- another prediction object: the old cache is not carried over
+  | .occupancySet, .obsUpdateInitialState => .drop      -- prediction := None (the cache goes away with its prediction)
+  | .occupancySet, .trajTranslateRotate => .keep        -- UNSOUND: the held trajectory cannot tell its prediction
+  | .occupancySet, .trajAppendState => .keep            -- UNSOUND: the same
+  | .occupancySet, _ => .keep
+  -- Obstacle._initial_occupancy_shape: recomputed inside the `initial_state` setter, which the other two go through
+  | .initialOccupancy, .obsSetInitialState => .recompute
+  | .initialOccupancy, .obsTranslateRotate => .recompute
+  | .initialOccupancy, .obsUpdateInitialState => .recompute
+  | .initialOccupancy, _ => .keep
+  -- Lanelet._polygon: rebuilt at the end of translate_rotate / convert_to_2d (the network methods loop over the lanelets)
+  | .laneletPolygon, .lanTranslateRotate => .recompute
+  | .laneletPolygon, .lanConvert2d => .recompute
+  | .laneletPolygon, .netTranslateRotate => .recompute
+  | .laneletPolygon, .netConvert2d => .recompute
+  | .laneletPolygon, _ => .keep
+  -- Lanelet._distance / _inner_distance: reset by convert_to_2d (fix 4809ac9); kept by motions (lengths are invariant)
+  | .laneletDistance, .lanConvert2d => .drop
+  | .laneletDistance, .netConvert2d => .drop
+  | .laneletDistance, _ => .keep
+  | .laneletInnerDistance, .lanConvert2d => .drop
+  | .laneletInnerDistance, .netConvert2d => .drop
+  | .laneletInnerDistance, _ => .keep
+  -- LaneletNetwork spatial index: add / remove patch `_buffered_polygons` by the one entry and rebuild the tree from it;
+  -- translate_rotate rebuilds everything (fix 34e39ea); deepcopy / pickle rebuild the tree from the copied buffered polygons (= keep)
+  | .networkIndex, .netAddLanelet => .update
+  | .networkIndex, .netAddFromNetwork => .update
+  | .networkIndex, .netRemoveLanelet => .update
+  | .networkIndex, .netTranslateRotate => .recompute
+  | .networkIndex, .lanTranslateRotate => .keep         -- UNSOUND: a lanelet the network holds cannot tell its network
+  | .networkIndex, _ => .keep
+  -- TrafficLightCycle._cycle_init_timesteps (fix 26cc485)
+  | .cycleInit, .cycSetElements => .drop
+  | .cycleInit, .cycSetOffset => .drop
+  | .cycleInit, _ => .keep
 
-def act (i : Item) (m : Mut) : Action := ((row? i m).map (·.action)).getD .keep
+structure Row where
+  item : Item
+  mutator : Mut
+  writes : List Field
+  action : Action
+  deriving Repr
 
-def writes (i : Item) (m : Mut) : List Field := ((row? i m).map (·.writes)).getD []
+/-- All |Item| × |Mut| pairs as rows. -/
+def table : List Row := allItems.flatMap fun i => allMuts.map fun m => ⟨i, m, writesOf m, act i m⟩
 
-/-- The decidable side condition: a row tagged `keep` writes nothing that the cached value reads. -/
-def Row.sound (r : Row) : Bool :=
-  r.action != .keep || r.writes.all (fun f => !(reads r.item).contains f)
+/-- The decidable side condition for ONE pair: if the cache is kept, the mutator writes nothing the cached value reads. -/
+def pairSound (i : Item) (m : Mut) : Bool :=
+  act i m != .keep || (writesOf m).all (fun f => !(reads i).contains f)
 
-def tableSound : Bool := table.all Row.sound
+def Row.sound (r : Row) : Bool := pairSound r.item r.mutator
 
-/-- The rows that break the side condition (empty on the repaired tree). -/
-def unsoundRows : List (Item × Mut) := (table.filter (fun r => !r.sound)).map (fun r => (r.item, r.mutator))
+/-- The pairs that break the side condition. -/
+def unsoundPairs : List (Item × Mut) :=
+  allItems.flatMap fun i => (allMuts.filter fun m => !pairSound i m).map fun m => (i, m)
+
+/-- A pair matters for the correspondence if the mutator can reach the cache at all. -/
+def Row.touches (r : Row) : Bool := r.action != .keep || r.writes.any (fun f => (reads r.item).contains f)
 
 /-! ### Token semantics of a table row: primary data = field ↦ version token -/
 
 abbrev Store := Field → Nat
 
-/-- A mutator invocation on item `i`: a row of the table for `i` plus the fresh version token. -/
-structure Inv (i : Item) where
-  row : Row
-  mem : row ∈ table
-  item : row.item = i
+/-- A mutator invocation: the mutator and the fresh version token its written fields get. -/
+structure Inv where
+  m : Mut
   v : Nat
 
-def tokenSpec (i : Item) : Spec Store (List Nat) (Inv i) where
+/-- Token semantics of cache `i`: the derived value is the list of versions of the fields it reads; a mutator stamps the
+    fields it writes with the new version; `update` re-stamps, in the cached list, exactly the written fields. -/
+def tokenSpec (i : Item) : Spec Store (List Nat) Inv where
   derive := fun s => (reads i).map s
-  eff := fun m s f => if m.row.writes.contains f then m.v else s f
-  act := fun m => m.row.action
+  eff := fun x s f => if (writesOf x.m).contains f then x.v else s f
+  act := fun x => act i x.m
+  upd := fun x d => List.zipWith (fun f old => if (writesOf x.m).contains f then x.v else old) (reads i) d
 
 /-! ## TrajectoryPrediction / obstacles (token model) -/
 
@@ -296,6 +357,8 @@ inductive ObsOp where
   | predSetWheelbase
   | predSetAssignment
   | predTranslateRotate (v : Nat)
+  | trajTranslateRotate (v : Nat)      -- obstacle.prediction.trajectory.translate_rotate(…)
+  | trajAppendState (v : Nat)          -- obstacle.prediction.trajectory.append_state(…)
   | qOcc (t : Int)
   | qState (t : Int)
   | qPredOcc (t : Int)
@@ -318,14 +381,26 @@ def Obs.freshInitOcc (o : Obs) : Nat × Nat := (o.shape, o.init)
 /-- The value `_initial_occupancy_shape` has when read (always set after construction). -/
 def Obs.initOccVal (o : Obs) : Nat × Nat := o.initOcc.getD (0, 0)
 
-/-- `TrajectoryPrediction.translate_rotate` / the action on its cache. -/
-def TPred.move (m : Mut) (p : TPred) (v : Nat) : TPred :=
-  let p' : TPred := { p with traj := { p.traj with v := v } }
-  { p' with cache := (act .occupancySet m).apply p'.derive p.cache }
+/-- The trajectory of a prediction gets new contents through mutator `m`; the table says what happens to the cache. -/
+def TPred.mutTraj (m : Mut) (p : TPred) (d : TrajData) : TPred :=
+  let p' : TPred := { p with traj := d }
+  { p' with cache := (act .occupancySet m).applySimple p'.derive p.cache }
+
+/-- `translate_rotate` reaching a prediction through mutator `m` (prediction / obstacle / scenario / held trajectory). -/
+def TPred.move (m : Mut) (p : TPred) (v : Nat) : TPred := p.mutTraj m { p.traj with v := v }
 
 def Pred.move (m : Mut) : Pred → Nat → Pred
   | .traj p, v => .traj (p.move m v)
   | .setb _ t0 len, v => .setb v t0 len
+
+/-- `obstacle.prediction = new` / `update_prediction(new)`: the slot the obstacle reads is now the one of the new object
+    (with whatever that object has cached for itself) — unless the table said the old cache is kept. -/
+def Pred.adopt (a : Action) (old : Option Pred) (new : Pred) : Pred :=
+  match a, old, new with
+  | .keep, some (.traj po), .traj pn => .traj { pn with cache := po.cache }
+  | .recompute, _, .traj pn => .traj { pn with cache := some pn.derive }
+  | .update, _, .traj pn => .traj { pn with cache := some pn.derive }
+  | _, _, _ => new
 
 /-- Apply an operation on the prediction of a dynamic obstacle that must be a TrajectoryPrediction. -/
 def Obs.onTPred (o : Obs) (f : TPred → TPred) : ObsAns × Obs :=
@@ -336,17 +411,17 @@ def Obs.onTPred (o : Obs) (f : TPred → TPred) : ObsAns × Obs :=
 def Obs.step (o : Obs) : ObsOp → ObsAns × Obs
   | .setInitialState v t0 =>            -- obstacle.py:240-255
     let o' := { o with init := v, t0 := t0 }
-    (.unit, { o' with initOcc := (act .initialOccupancy .obsSetInitialState).apply o'.freshInitOcc o.initOcc })
+    (.unit, { o' with initOcc := (act .initialOccupancy .obsSetInitialState).applySimple o'.freshInitOcc o.initOcc })
   | .setShape =>                         -- obstacle.py:221-233: second assignment only warns
-    (.unit, { o with initOcc := (act .initialOccupancy .obsSetShape).apply o.freshInitOcc o.initOcc })
+    (.unit, { o with initOcc := (act .initialOccupancy .obsSetShape).applySimple o.freshInitOcc o.initOcc })
   | .translateRotate v =>                -- obstacle.py:401-417 (static), :644-663 (dynamic); scenario.py:1297-1314
-    let pred' := if o.dynamic then o.pred.map (fun p => p.move .predTranslateRotate v) else o.pred  -- delegates (:660-661)
+    let pred' := if o.dynamic then o.pred.map (fun p => p.move .obsTranslateRotate v) else o.pred  -- delegates to the prediction
     let o' := { o with init := v, pred := pred' }
-    (.unit, { o' with initOcc := (act .initialOccupancy .obsTranslateRotate).apply o'.freshInitOcc o.initOcc })
+    (.unit, { o' with initOcc := (act .initialOccupancy .obsTranslateRotate).applySimple o'.freshInitOcc o.initOcc })
   | .setPrediction p =>                  -- obstacle.py:561-568, 714-725
     if !o.dynamic then (.err .attr, o) else
-    let o' := { o with pred := p }
-    (.unit, { o' with initOcc := (act .initialOccupancy .obsSetPrediction).apply o'.freshInitOcc o.initOcc })
+    let o' := { o with pred := p.map (Pred.adopt (act .occupancySet .obsSetPrediction) o.pred) }
+    (.unit, { o' with initOcc := (act .initialOccupancy .obsSetPrediction).applySimple o'.freshInitOcc o.initOcc })
   | .updateInitialState v t0 sig cen shp m =>   -- obstacle.py:665-712
     if !o.dynamic then (.err .attr, o) else
     if m ≤ 0 then (.err .assert, o) else
@@ -355,21 +430,24 @@ def Obs.step (o : Obs) : ObsOp → ObsAns × Obs
     let hc := o.cenHist ++ [o.cen]
     let hp := o.shpHist ++ [o.shp]
     let o' := { o with init := v, t0 := t0, sig := sig, cen := cen, shp := shp, pred := none }
-    let o' := { o' with initOcc := (act .initialOccupancy .obsUpdateInitialState).apply o'.freshInitOcc o.initOcc }
+    let o' := { o' with initOcc := (act .initialOccupancy .obsUpdateInitialState).applySimple o'.freshInitOcc o.initOcc }
     if h.length > m.toNat then
       (.unit, { o' with hist := lastN m.toNat h, sigHist := lastN m.toNat hs, cenHist := lastN m.toNat hc,
                         shpHist := lastN m.toNat hp })
     else (.unit, { o' with hist := h, sigHist := hs, cenHist := hc, shpHist := hp })
-  | .predSetShape v =>                   -- prediction.py:305-314
+  | .predSetShape v =>                   -- prediction.py:307-317
     o.onTPred fun p => let p' := { p with shape := v }
-                       { p' with cache := (act .occupancySet .predSetShape).apply p'.derive p.cache }
-  | .predSetTrajectory d =>              -- prediction.py:321-328
-    o.onTPred fun p => let p' := { p with traj := d }
-                       { p' with cache := (act .occupancySet .predSetTrajectory).apply p'.derive p.cache }
-  | .predSetWheelbase =>                 -- prediction.py:367-370
-    o.onTPred fun p => { p with cache := (act .occupancySet .predSetWheelbase).apply p.derive p.cache }
-  | .predSetAssignment =>                -- prediction.py:335-360
-    o.onTPred fun p => { p with cache := (act .occupancySet .predSetAssignment).apply p.derive p.cache }
+                       { p' with cache := (act .occupancySet .predSetShape).applySimple p'.derive p.cache }
+  | .predSetTrajectory d =>              -- prediction.py:323-331
+    o.onTPred fun p => p.mutTraj .predSetTrajectory d
+  | .predSetWheelbase =>                 -- prediction.py:369-371
+    o.onTPred fun p => { p with cache := (act .occupancySet .predSetWheelbase).applySimple p.derive p.cache }
+  | .predSetAssignment =>                -- prediction.py:337-363
+    o.onTPred fun p => { p with cache := (act .occupancySet .predSetAssignment).applySimple p.derive p.cache }
+  | .trajTranslateRotate v =>            -- trajectory.py:156-176 on the trajectory the prediction holds
+    o.onTPred fun p => p.move .trajTranslateRotate v
+  | .trajAppendState v =>                -- trajectory.py:97-123: one more state at the end
+    o.onTPred fun p => p.mutTraj .trajAppendState { p.traj with v := v, len := p.traj.len + 1 }
   | .predTranslateRotate v =>            -- prediction.py:207-221 (set based), :372-387 (trajectory)
     match o.pred with
     | some p => (.unit, { o with pred := some (p.move .predTranslateRotate v) })
@@ -432,16 +510,16 @@ def Lan.new (v : Nat) (is3d : Bool) : Lan := ⟨v, v, v, is3d, some v, none, non
 def Lan.move (m : Mut) (l : Lan) (v : Nat) : Except Err Lan :=
   if l.is3d then .error .value else
   let l' := { l with geo := v, xy := v }
-  .ok { l' with poly := (act .laneletPolygon m).apply l'.geo l.poly,
-                dist := (act .laneletDistance m).apply l'.intr l.dist,
-                inner := (act .laneletInnerDistance m).apply l'.intr l.inner }
+  .ok { l' with poly := (act .laneletPolygon m).applySimple l'.geo l.poly,
+                dist := (act .laneletDistance m).applySimple l'.intr l.dist,
+                inner := (act .laneletInnerDistance m).applySimple l'.intr l.inner }
 
 /-- `Lanelet.convert_to_2d` (lanelet.py:642-659). -/
 def Lan.flatten (m : Mut) (l : Lan) (v : Nat) : Lan :=
   let l' := if l.is3d then { l with geo := v, intr := v, is3d := false } else l
-  { l' with poly := (act .laneletPolygon m).apply l'.geo l.poly,
-            dist := (act .laneletDistance m).apply l'.intr l.dist,
-            inner := (act .laneletInnerDistance m).apply l'.intr l.inner }
+  { l' with poly := (act .laneletPolygon m).applySimple l'.geo l.poly,
+            dist := (act .laneletDistance m).applySimple l'.intr l.dist,
+            inner := (act .laneletInnerDistance m).applySimple l'.intr l.inner }
 
 def Lan.qDist (l : Lan) : Nat × Lan :=
   match l.dist with
@@ -477,10 +555,13 @@ def Net.freshEntries (n : Net) : List (Nat × Nat) := n.lanelets.map (fun p => (
 
 def Net.createTree (n : Net) : Net := { n with tree := some n.buffered }
 
-/-- The index part of a network-level mutator: apply the table's action to buffered polygons + tree. -/
-def Net.reindex (m : Mut) (old : Net) (n : Net) : Net :=
+/-- The index part of mutator `m`: apply the table's action to `_buffered_polygons` + tree.  `old` is the network before,
+    `patched` the buffered polygons after the code's incremental edit of the one entry concerned (what `update` installs and
+    rebuilds the tree from), `n` the network with the new primary data. -/
+def Net.reindex (m : Mut) (old : Net) (patched : List (Nat × Nat)) (n : Net) : Net :=
   match act .networkIndex m with
   | .recompute => { n with buffered := n.freshEntries, tree := some n.freshEntries }
+  | .update => { n with buffered := patched, tree := some patched }
   | .drop => { n with buffered := [], tree := none }
   | .keep => { n with buffered := old.buffered, tree := old.tree }
 
@@ -498,6 +579,8 @@ inductive NetOp where
   | remove (id : Nat) (rtree : Bool)
   | translateRotate (v : Nat)
   | convert2d (v : Nat)
+  | lanTranslateRotate (id : Nat) (v : Nat)   -- network.find_lanelet_by_id(id).translate_rotate(…): a lanelet the network holds
+  | lanConvert2d (id : Nat) (v : Nat)         -- network.find_lanelet_by_id(id).convert_to_2d()
   | deepcopy
   | pickle
   | qFind                 -- find_lanelet_by_position / find_lanelet_by_shape: the index contents that answer
@@ -514,13 +597,15 @@ inductive NetAns where
   | tok (v : Nat)
   deriving DecidableEq, Repr, Inhabited
 
-/-- `add_lanelet` (lanelet.py:1786-1808): refuses an id that is already there. -/
+/-- `add_lanelet` (lanelet.py:1790-1812): refuses an id that is already there; stores the polygon of the new lanelet and,
+    unless `rtree=False` was asked for, rebuilds the tree — which action that is on the index is the table's entry. -/
 def Net.addOne (n : Net) (id : Nat) (l : Lan) (rtree : Bool) : Bool × Net :=
   match assocGet id n.lanelets with
   | some _ => (false, n)
   | none =>
-    let n' := { n with lanelets := n.lanelets ++ [(id, l)], buffered := n.buffered ++ [(id, l.xy)] }
-    (true, if rtree then n'.createTree else n')
+    let patched := n.buffered ++ [(id, l.xy)]
+    let n' := { n with lanelets := n.lanelets ++ [(id, l)] }
+    (true, if rtree then Net.reindex .netAddLanelet n patched n' else { n' with buffered := patched })
 
 /-- The loop of `add_lanelets_from_network` (lanelet.py:1929-1931): `flag = flag and self.add_lanelet(la, rtree=False)` —
     `and` short-circuits, so after the first refused lanelet nothing more is added. -/
@@ -534,21 +619,37 @@ def Net.addAll (n : Net) : List (Nat × Lan) → Bool → Bool × Net
 
 def Net.step (n : Net) : NetOp → NetAns × Net
   | .add id l rtree => let (b, n') := n.addOne id l rtree; (.bool b, n')
-  | .addFrom ls => let (b, n') := n.addAll ls true; (.bool b, n'.createTree)   -- lanelet.py:1920-1934
-  | .remove id rtree =>                   -- lanelet.py:1600-1613
+  | .addFrom ls =>                        -- lanelet.py:1924-1938: adds with rtree=False, then one rebuild
+    let (b, n') := n.addAll ls true
+    (.bool b, Net.reindex .netAddFromNetwork n n'.buffered n')
+  | .remove id rtree =>                   -- lanelet.py:1604-1617
     let n' := match assocGet id n.lanelets with
-      | some _ => { n with lanelets := assocErase id n.lanelets, buffered := assocErase id n.buffered }
+      | some _ => { n with lanelets := assocErase id n.lanelets }
       | none => n
-    (.unit, if rtree then n'.createTree else n')
+    let patched := match assocGet id n.lanelets with
+      | some _ => assocErase id n.buffered
+      | none => n.buffered
+    (.unit, if rtree then Net.reindex .netRemoveLanelet n patched n' else { n' with buffered := patched })
   | .translateRotate v =>                 -- lanelet.py:1936-1965
     let (ls, e) := moveAll v n.lanelets
     match e with
     | some e => (.err e, { n with lanelets := ls })
-    | none => (.unit, Net.reindex .netTranslateRotate n { n with lanelets := ls })
+    | none => (.unit, Net.reindex .netTranslateRotate n n.buffered { n with lanelets := ls })
   | .convert2d v =>                       -- lanelet.py:1967-1978
-    (.unit, Net.reindex .netConvert2d n { n with lanelets := n.lanelets.map (fun p => (p.1, p.2.flatten .netConvert2d v)) })
-  | .deepcopy => (.unit, (Net.reindex .netDeepcopy n n).createTree)   -- lanelet.py:1304-1318 (we continue on the copy)
-  | .pickle => (.unit, (Net.reindex .netPickle n n).createTree)       -- lanelet.py:1295-1302
+    (.unit, Net.reindex .netConvert2d n n.buffered { n with lanelets := n.lanelets.map (fun p => (p.1, p.2.flatten .netConvert2d v)) })
+  | .lanTranslateRotate id v =>           -- lanelet.py:603-640 on a lanelet of `_lanelets`
+    match assocGet id n.lanelets with
+    | none => (.err .key, n)
+    | some l =>
+      match l.move .lanTranslateRotate v with
+      | .error e => (.err e, n)
+      | .ok l' => (.unit, Net.reindex .lanTranslateRotate n n.buffered { n with lanelets := assocSet id l' n.lanelets })
+  | .lanConvert2d id v =>                 -- lanelet.py:642-660 on a lanelet of `_lanelets`
+    match assocGet id n.lanelets with
+    | none => (.err .key, n)
+    | some l => (.unit, Net.reindex .lanConvert2d n n.buffered { n with lanelets := assocSet id (l.flatten .lanConvert2d v) n.lanelets })
+  | .deepcopy => (.unit, (Net.reindex .netDeepcopy n n.buffered n).createTree)   -- lanelet.py:1308-1322 (we continue on the copy)
+  | .pickle => (.unit, (Net.reindex .netPickle n n.buffered n).createTree)       -- lanelet.py:1299-1306
   | .qFind =>                             -- lanelet.py:1980-2019
     match n.tree with
     | none => (.err .attr, n)
